@@ -115,3 +115,174 @@ func inputOrigin(v ssa.Value, depth int) string {
 	}
 	return ""
 }
+
+// X2 (C14): a field of the muxer that caches something computed from its frame list stays coherent.
+// If some method stores a scalar field C under a condition (or with a value) that reads another field S
+// of the receiver, C is derived from S; every method that then modifies S - the field itself or memory
+// reached through it (m.frames[i].opts.Duration = ...) - must store C as well (directly or through a
+// method it calls). A setter that forgets the cache makes the file layout depend on the call history.
+func c14CacheCoherence(c *Ctx, p *Program) {
+	pk := p.SSAPkg("mux")
+	if pk == nil {
+		c.AnchorMissing("X2-cache-coherence", "package mux")
+		return
+	}
+	mt, _ := pk.Members["Muxer"].(*ssa.Type)
+	if mt == nil {
+		c.AnchorMissing("X2-cache-coherence", "mux.Muxer")
+		return
+	}
+	st, _ := mt.Type().Underlying().(*types.Struct)
+	mset := p.SSA.MethodSets.MethodSet(types.NewPointer(mt.Type()))
+	var methods []*ssa.Function
+	for i := 0; i < mset.Len(); i++ {
+		if f := p.SSA.MethodValue(mset.At(i)); f != nil && f.Blocks != nil {
+			methods = append(methods, f)
+		}
+	}
+	recvFieldOfAddr := func(fn *ssa.Function, addr ssa.Value) (field int, direct bool) {
+		// field of the receiver that addr lies in; direct: addr is the field itself
+		direct = true
+		for i := 0; i < 8; i++ {
+			switch x := addr.(type) {
+			case *ssa.FieldAddr:
+				if x.X == ssa.Value(fn.Params[0]) {
+					return x.Field, direct
+				}
+				direct = false
+				addr = x.X
+			case *ssa.IndexAddr:
+				direct = false
+				addr = x.X
+			case *ssa.UnOp:
+				if x.Op != token.MUL {
+					return -1, false
+				}
+				direct = false
+				addr = x.X
+			default:
+				return -1, false
+			}
+		}
+		return -1, false
+	}
+	readsField := func(fn *ssa.Function, v ssa.Value, depth int) map[int]bool {
+		out := map[int]bool{}
+		var walk func(v ssa.Value, d int)
+		seen := map[ssa.Value]bool{}
+		walk = func(v ssa.Value, d int) {
+			if d > 8 || v == nil || seen[v] {
+				return
+			}
+			seen[v] = true
+			if ld, ok := v.(*ssa.UnOp); ok && ld.Op == token.MUL {
+				if f, _ := recvFieldOfAddr(fn, ld.X); f >= 0 {
+					out[f] = true
+				}
+			}
+			if in, ok := v.(ssa.Instruction); ok {
+				for _, op := range in.Operands(nil) {
+					if *op != nil {
+						walk(*op, d+1)
+					}
+				}
+			}
+		}
+		walk(v, 0)
+		return out
+	}
+	// derived fields
+	dep := map[int]map[int]bool{} // C -> sources
+	writes := map[*ssa.Function]map[int]bool{}
+	touches := map[*ssa.Function]map[int]bool{} // S modified (directly or through)
+	for _, fn := range methods {
+		writes[fn] = map[int]bool{}
+		touches[fn] = map[int]bool{}
+		for _, b := range fn.Blocks {
+			for _, in := range b.Instrs {
+				s, ok := in.(*ssa.Store)
+				if !ok {
+					continue
+				}
+				f, direct := recvFieldOfAddr(fn, s.Addr)
+				if f < 0 {
+					continue
+				}
+				touches[fn][f] = true
+				if !direct {
+					continue
+				}
+				writes[fn][f] = true
+				bt, isBasic := st.Field(f).Type().Underlying().(*types.Basic)
+				if !isBasic || bt.Info()&(types.IsBoolean|types.IsInteger) == 0 {
+					continue
+				}
+				src := readsField(fn, s.Val, 0)
+				// conditions controlling the store
+				for d := b; d != nil; d = d.Idom() {
+					id := d.Idom()
+					if id == nil {
+						break
+					}
+					if iff, ok := id.Instrs[len(id.Instrs)-1].(*ssa.If); ok && !(id.Succs[0].Dominates(b) && id.Succs[1].Dominates(b)) {
+						for k := range readsField(fn, iff.Cond, 0) {
+							src[k] = true
+						}
+					}
+				}
+				for k := range src {
+					if k == f {
+						continue
+					}
+					if _, isSl := st.Field(k).Type().Underlying().(*types.Slice); !isSl {
+						continue // derived from a list-like field only
+					}
+					if dep[f] == nil {
+						dep[f] = map[int]bool{}
+					}
+					dep[f][k] = true
+				}
+			}
+		}
+	}
+	// transitive: methods called on the receiver
+	for changed := true; changed; {
+		changed = false
+		for _, fn := range methods {
+			for _, b := range fn.Blocks {
+				for _, in := range b.Instrs {
+					call, ok := in.(*ssa.Call)
+					if !ok || len(call.Call.Args) == 0 || call.Call.Args[0] != ssa.Value(fn.Params[0]) {
+						continue
+					}
+					if cal := call.Call.StaticCallee(); cal != nil && writes[cal] != nil {
+						for k := range writes[cal] {
+							if !writes[fn][k] {
+								writes[fn][k] = true
+								changed = true
+							}
+						}
+					}
+				}
+			}
+		}
+	}
+	n := 0
+	for cf, srcs := range dep {
+		for sf := range srcs {
+			for _, fn := range methods {
+				if !touches[fn][sf] {
+					continue
+				}
+				n++
+				key := fmt.Sprintf("Muxer.%s<-%s@%s", st.Field(cf).Name(), st.Field(sf).Name(), fn.Name())
+				c.Check(writes[fn][cf], "X2-cache-coherence", key, p.Pos(fn.Pos()),
+					"the method that modifies "+st.Field(sf).Name()+" also refreshes "+st.Field(cf).Name(),
+					fmt.Sprintf("Muxer.%s is computed from Muxer.%s, but %s modifies %s (or what it holds) without storing %s: the cached value goes stale and the written file depends on the order of the calls", st.Field(cf).Name(), st.Field(sf).Name(), fn.Name(), st.Field(sf).Name(), st.Field(cf).Name()))
+			}
+		}
+	}
+	if n == 0 {
+		c.Pass("X2-cache-coherence", "Muxer", "", "no field of the muxer is derived from its frame list (nothing is cached); exercised by the self-test patches")
+	}
+}
